@@ -25,7 +25,7 @@ if [ ! -d $base/repo ]; then
   mkdir -p $base
   git -C /repo worktree add -q --detach $base/repo HEAD || exit 2
 else
-  git -C $base/repo checkout -q -- . && git -C $base/repo clean -fdq -e target
+  git -C $base/repo reset -q --hard && git -C $base/repo clean -fdq -e target      # also clears a --revert left in the index
   git -C $base/repo checkout -q --detach $(git -C /repo rev-parse HEAD)      # follow /repo's HEAD
 fi
 if [ "$mode" = "--revert" ]; then
